@@ -23,7 +23,8 @@ Definition server_handle (po : parse_outcome) : world -> (json * bool) * world :
     match po with
     | Undecodable => ((format_error_reply, false), w)
     | JsonError => ((format_error_reply, false), w)
-    | ParserRaised => ((JObj [], true), w)
+    | ParserRaised => if SERVER_PARSER_RAISED_IS_FORMAT_ERROR
+                      then ((format_error_reply, false), w) else ((JObj [], true), w)
     | Parsed j =>
         match handle_request keccak kind mode j w with
         | (Ok reply, w') => ((reply, false), w')
